@@ -83,9 +83,11 @@ pub open spec fn cs_set(s: Raw, ch: Seq<char>, d: Seq<char>, out: nat, sent: nat
 @ensures C11.increase_exact C12
     r is Ok ==> outstanding(old(storage).view(), channel@, denom@) + amount@ <= u128::MAX && total_sent(old(storage).view(), channel@, denom@) + amount@ <= u128::MAX
         && final(storage).view() == cs_set(old(storage).view(), channel@, denom@, outstanding(old(storage).view(), channel@, denom@) + amount@, total_sent(old(storage).view(), channel@, denom@) + amount@)
+@ensures C12.increase_succeeds C11
+    (!old(storage).view().contains_key(cskey(channel@, denom@)) || cs_of(old(storage).view(), channel@, denom@) is Some) ==> r is Ok
 @closure 1 C11.increase_closure
     (res: StdResult<ChannelState>)
-    ensures res is Ok ==> orig.unwrap_or(ChannelState { outstanding: Uint128(0), total_sent: Uint128(0) }).outstanding.0 + amount.0 <= u128::MAX
+    ensures res is Ok, res is Ok ==> orig.unwrap_or(ChannelState { outstanding: Uint128(0), total_sent: Uint128(0) }).outstanding.0 + amount.0 <= u128::MAX
         && orig.unwrap_or(ChannelState { outstanding: Uint128(0), total_sent: Uint128(0) }).total_sent.0 + amount.0 <= u128::MAX
         && res->Ok_0 == (ChannelState {
             outstanding: Uint128((orig.unwrap_or(ChannelState { outstanding: Uint128(0), total_sent: Uint128(0) }).outstanding.0 + amount.0) as u128),
@@ -115,9 +117,11 @@ pub open spec fn cs_set(s: Raw, ch: Seq<char>, d: Seq<char>, out: nat, sent: nat
 @ensures C11.undo_exact C12
     r is Ok ==> outstanding(old(storage).view(), channel@, denom@) + amount@ <= u128::MAX
         && final(storage).view() == cs_set(old(storage).view(), channel@, denom@, outstanding(old(storage).view(), channel@, denom@) + amount@, total_sent(old(storage).view(), channel@, denom@))
+@ensures C12.undo_succeeds C11
+    (!old(storage).view().contains_key(cskey(channel@, denom@)) || cs_of(old(storage).view(), channel@, denom@) is Some) ==> r is Ok
 @closure 1 C11.undo_closure
     (res: StdResult<ChannelState>)
-    ensures res is Ok ==> orig.unwrap_or(ChannelState { outstanding: Uint128(0), total_sent: Uint128(0) }).outstanding.0 + amount.0 <= u128::MAX
+    ensures res is Ok, res is Ok ==> orig.unwrap_or(ChannelState { outstanding: Uint128(0), total_sent: Uint128(0) }).outstanding.0 + amount.0 <= u128::MAX
         && res->Ok_0 == (ChannelState {
             outstanding: Uint128((orig.unwrap_or(ChannelState { outstanding: Uint128(0), total_sent: Uint128(0) }).outstanding.0 + amount.0) as u128),
             total_sent: orig.unwrap_or(ChannelState { outstanding: Uint128(0), total_sent: Uint128(0) }).total_sent })
@@ -218,6 +222,8 @@ pub open spec fn gas_limit_for(s: Raw, a: Amount) -> Option<Option<u64>> {
 @fn contracts/cw20-ics20/src/ibc.rs check_gas_limit
 @ensures C18.gas_limit_lookup C12
     r is Ok ==> gas_limit_for(deps.storage.view(), *amount) == Some(r->Ok_0)
+@ensures C18.gas_limit_native_never_fails C12
+    *amount is Native ==> r is Ok
 @prefix
     broadcast use ics_axioms;
 @end
@@ -327,6 +333,12 @@ pub open spec fn step_failure(s: Raw, t: Raw, packet: IbcPacket, msgs: Seq<SubMs
 @fn contracts/cw20-ics20/src/ibc.rs on_packet_failure
 @ensures C11.failure_refunds_exactly C12 C18
     r is Ok ==> step_failure(old(deps.storage).view(), final(deps.storage).view(), packet, r->Ok_0.messages@)
+@ensures C12.failure_refund_goes_through C11
+    Ics20Packet::unjson(packet.data@) is Some && ({
+        let p = Ics20Packet::unjson(packet.data@)->Some_0;
+        cs_of(old(deps.storage).view(), packet.src.channel_id@, p.denom@) is Some && outstanding(old(deps.storage).view(), packet.src.channel_id@, p.denom@) >= p.amount@
+        && parts_amount(p.denom@, p.amount) is Native
+    }) ==> r is Ok
 @prefix
     broadcast use ics_axioms, string_conv, msg_conv;
     proof { lemma_ns6(); }
